@@ -313,6 +313,8 @@ def feature_tags(case):
                 t.add("wrap:" + it["wrap"])
             if it.get("join"):
                 t.add("join")
+            if it["t"] == "eval" and it.get("spell", "dds") != "dds":
+                t.add("evalspell:" + it["spell"])
     if prog.get("rec_builtin"):
         t.add("rec:builtin")
     if len(prog["mods"]) > 1:
